@@ -2355,9 +2355,13 @@ func (c *streamableClientConn) Write(ctx context.Context, msg jsonrpc.Message) e
 			// non-JSON-RPC body (e.g. plain text 400), which checkResponse
 			// cannot classify as a per-call rejection on its own.
 			err = fmt.Errorf("%w: %w", err, jsonrpc2.ErrRejected)
-		} else if !errors.Is(err, jsonrpc2.ErrRejected) {
+		} else if !errors.Is(err, jsonrpc2.ErrRejected) && ctx.Err() == nil {
 			// Only fail the connection for non-transient errors.
 			// Transient errors (wrapped with ErrRejected) should not break the connection.
+			//
+			// Nor should an error observed after the caller abandoned the request:
+			// ctx governs the response body, so checkResponse may have classified a
+			// truncated error body (see also handleJSON).
 			c.fail(err)
 		}
 		return err
